@@ -207,7 +207,12 @@ class Plan:
         return out
 
     def transc_types(self):
-        signed = TR_SIGNED if self.tier == "thorough" else TR_QUICK_SIGNED
+        if self.tier == "thorough":
+            # every signed layout into which the module's I9F23 constants convert losslessly
+            # (>= 9 integer bits incl. sign, >= 23 fractional bits): 1 + 33 + 97 = 131 same-type pairs
+            signed = [A.layout_name(True, w, f) for w in (32, 64, 128) for f in range(23, w - 9 + 1)]
+        else:
+            signed = TR_QUICK_SIGNED
         pairs = [(A.Layout(s), A.Layout(s)) for s in signed]
         pairs += [(A.Layout(s), A.Layout(d)) for (s, d) in TR_MIXED]
         singles = [A.Layout(s) for s in signed]
@@ -217,25 +222,30 @@ class Plan:
         signed, pairs, singles = self.transc_types()
         roots = self.gen.transc_roots(pairs, singles, guard_trig=True)
         # unsigned sources exist for sqrt (S = D) and powi (unsigned S, signed D)
-        us = [(A.Layout(s), A.Layout(s)) for s in TR_UNSIGNED_SQRT]
+        us = [(A.Layout(s), A.Layout(s)) for s in self._unsigned_sqrt()]
         roots += self.gen.transc_roots(us, [], fns={"sqrt"})
         roots += self.gen.transc_roots([(A.Layout(s), A.Layout(d)) for (s, d) in TR_POWI_UNSIGNED], [],
                                        fns={"powi", "sqrt"})
         # split into a few crates for parallel LTO
-        n = 4 if self.tier == "thorough" else 2
+        n = 16 if self.tier == "thorough" else 2
         out = []
         for i in range(n):
             out.append(B.Crate("h_transc_%d" % i, roots[i::n], extra_code=G.controls()))
         return out
+
+    def _unsigned_sqrt(self):
+        if self.tier == "thorough":
+            return [A.layout_name(False, w, f) for w in (32, 64, 128) for f in range(23, w - 9 + 1, 4)]
+        return TR_UNSIGNED_SQRT
 
     # unguarded trig + everything else for the loop engine
     def loop_crates(self):
         signed, pairs, singles = self.transc_types()
         roots = self.gen.transc_roots(pairs, singles, guard_trig=False,
                                       fns={"sqrt", "log2", "ln", "exp", "pow", "sin", "cos", "tan"})
-        us = [(A.Layout(s), A.Layout(s)) for s in TR_UNSIGNED_SQRT]
+        us = [(A.Layout(s), A.Layout(s)) for s in self._unsigned_sqrt()]
         roots += self.gen.transc_roots(us, [], fns={"sqrt"})
-        n = 4 if self.tier == "thorough" else 2
+        n = 16 if self.tier == "thorough" else 2
         return [B.Crate("h_loops_%d" % i, roots[i::n], extra_code=LOOP_CONTROLS) for i in range(n)]
 
 
